@@ -13,10 +13,13 @@ use std::{
 };
 
 fn read_lines<R: BufRead>(reader: R, args: &Args, planes: &mut Planes) -> Result<()> {
-    let downlink_error_log_file = args
-        .downlink_log
-        .as_ref()
-        .map(|f| Mutex::new(File::create(f).expect("Unable to create downlink log file")));
+    let downlink_error_log_file = args.downlink_log.as_ref().and_then(|f| match File::create(f) {
+        Ok(file) => Some(Mutex::new(file)),
+        Err(e) => {
+            error!("Unable to create downlink log file {}: {}", f, e);
+            None
+        }
+    });
 
     let display_flags = DisplayFlags::from_arg_str(&args.display_info.concat());
 
@@ -66,7 +69,9 @@ fn read_lines<R: BufRead>(reader: R, args: &Args, planes: &mut Planes) -> Result
         let now = chrono::Utc::now();
         if let Ok(downlink) = DF::from_message(&message) {
             if let Some(ref downlink_error_log_file) = downlink_error_log_file {
-                downlink.log(downlink_error_log_file)?;
+                if let Err(e) = downlink.log(downlink_error_log_file) {
+                    error!("Unable to write downlink log: {}", e);
+                }
             }
             planes.update_aircraft(&downlink, &message, df, icao, args);
             planes.cleanup(&mut app_state, now, args.delete_after);
